@@ -1041,8 +1041,8 @@ func (v vset) subset(o vset) bool {
 func (e *FactEngine) newUniverse(req *Formula, body *ast.BlockStmt, target ...ast.Node) (*universe, error) {
 	m := map[string]bool{}
 	req.atoms(m)
-	if len(m) > 16 {
-		return nil, fmt.Errorf("requirement has %d atoms (max 16)", len(m))
+	if len(m) > 18 {
+		return nil, fmt.Errorf("requirement has %d atoms (max 18)", len(m))
 	}
 	// one-step closure: atoms that occur in a branch condition together with a
 	// requirement atom are tracked too (so `if a && b {return}; if a {target}` entails !b)
